@@ -7,9 +7,13 @@ package buffer
 /*@
 import escape "github.com/cockroachdb/redact/internal/escape"
 
+ghostvar gl int
+ghostvar ga seq
+
 assume pure func utf8.RuneLen(r rune) (n int)
   ensures n == -1 || (1 <= n && n <= 4)
   ensures n == -1 <==> (r < 0 || r > 1114111 || (55296 <= r && r <= 57343))
+  ensures (0 <= r && r < 128) ==> n == 1
 
 assume func utf8.EncodeRune(p []byte, r rune) (n int)
   requires utf8.RuneLen(r) == -1 ==> len(p) >= 3
@@ -17,14 +21,29 @@ assume func utf8.EncodeRune(p []byte, r rune) (n int)
   modifies mem(p)
   ensures utf8.RuneLen(r) == -1 ==> n == 3
   ensures utf8.RuneLen(r) != -1 ==> n == utf8.RuneLen(r)
+  ensures forall j :: 0 <= j && j < off(p) ==> memAt(p, j) == old(memAt(p, j))
+  ensures (0 <= r && r < 128) ==> p[0] == r
 
 assume func makeSlice(n int) (s []byte)
   requires n >= 0
   modifies alloc
   ensures len(s) == n && cap(s) == n && off(s) == 0 && fresh(s)
 
+func endsWithIncompleteRune(p []byte) (r bool)
+  modifies nothing
+  ensures [C01] !r ==> clean(p, len(p))
+
+-- The representation invariant of Buffer (DESIGN 3.1). A = b.buf, V = validUntil, O = markerOpen.
 invariant (b *Buffer)
   ensures 0 <= b.validUntil && b.validUntil <= len(b.buf)
+  ensures 0 <= b.mode && b.mode <= 2
+  ensures [C01] WF(b.buf, b.validUntil, b.markerOpen)
+  ensures [C03] LS(b.buf, b.validUntil)
+  ensures [C01] b.mode != SafeRaw ==> clean(b.buf, b.validUntil)
+  ensures [C01] b.mode != UnsafeEscaped ==> !b.markerOpen
+  ensures [C01] b.mode == UnsafeEscaped && !b.markerOpen ==> b.validUntil == len(b.buf)
+  ensures [C01] b.mode == SafeRaw ==> WF(b.buf, len(b.buf), false)
+  ensures [C03] b.mode == SafeRaw ==> LS(b.buf, len(b.buf))
 
 func (b *Buffer) tryGrowByReslice(n int) (m int, ok bool)
   requires n >= 0
@@ -33,55 +52,113 @@ func (b *Buffer) tryGrowByReslice(n int) (m int, ok bool)
   ensures !ok ==> b.buf == old(b.buf)
   ensures b.validUntil == old(b.validUntil) && b.mode == old(b.mode) && b.markerOpen == old(b.markerOpen)
   ensures memUnchanged()
+  ensures sameView(b.buf, old(b.buf))
 
 func (b *Buffer) grow(n int) (m int)
   requires n >= 0 && n <= 1099511627776
   ensures m == old(len(b.buf)) && len(b.buf) == old(len(b.buf)) + n
   ensures b.validUntil == old(b.validUntil) && b.mode == old(b.mode) && b.markerOpen == old(b.markerOpen)
+  ensures sameBytes(b.buf, old(b.buf), old(len(b.buf)))
+  ensures ref(b.buf) == old(ref(b.buf)) || fresh(b.buf)
+  ensures [C13] kept(b.buf)
 
 func (b *Buffer) Grow(n int)
   requires n >= 0 && n <= 1099511627776
   ensures len(b.buf) == old(len(b.buf))
   ensures b.validUntil == old(b.validUntil) && b.mode == old(b.mode) && b.markerOpen == old(b.markerOpen)
+  ensures sameBytes(b.buf, old(b.buf), old(len(b.buf)))
+  ensures [C13] kept(b.buf)
 
 func (b *Buffer) startRedactable()
-  ensures len(b.buf) >= 0
-  ensures b.validUntil == old(b.validUntil) && b.mode == old(b.mode)
+  requires !b.markerOpen && b.validUntil == len(b.buf) && b.mode == UnsafeEscaped
+  requires WF(b.buf, len(b.buf), false) && LS(b.buf, len(b.buf)) && clean(b.buf, len(b.buf))
+  ghost gl = len(b.buf) before "p, ok := b.tryGrowByReslice(len(m.StartS))"
+  ghost ga = b.buf before "p, ok := b.tryGrowByReslice(len(m.StartS))"
+  lemma [C01,C03] AppendDelim(ga, b.buf, gl, true) after "copy(b.buf[p:], m.StartS)"
+  ensures b.markerOpen && b.validUntil == old(b.validUntil) && b.mode == old(b.mode)
+  ensures [C01] WF(b.buf, len(b.buf), true)
+  ensures [C03] LS(b.buf, len(b.buf))
+  ensures [C01] clean(b.buf, len(b.buf))
+  ensures [C13] kept(b.buf)
 
 func (b *Buffer) endRedactable()
-  ensures b.validUntil == old(b.validUntil) && b.mode == old(b.mode)
+  requires b.markerOpen && b.validUntil == len(b.buf)
+  requires WF(b.buf, len(b.buf), true) && LS(b.buf, len(b.buf)) && clean(b.buf, len(b.buf))
+  ghost gl = len(b.buf) before "p, ok := b.tryGrowByReslice(m.EndLen)"
+  ghost ga = b.buf before "p, ok := b.tryGrowByReslice(m.EndLen)"
+  lemma [C01,C03] AppendDelim(ga, b.buf, gl, false) after "copy(b.buf[p:], m.EndS)"
+  ensures !b.markerOpen && b.validUntil == old(b.validUntil) && b.mode == old(b.mode)
+  ensures [C01] WF(b.buf, len(b.buf), false)
+  ensures [C03] LS(b.buf, len(b.buf))
+  ensures [C01] clean(b.buf, len(b.buf))
+  ensures [C13] kept(b.buf)
 
 func (b *Buffer) startWrite()
   requires inv(b)
   ensures inv(b)
   ensures b.mode == old(b.mode)
+  ensures b.mode == UnsafeEscaped ==> b.markerOpen
+  ensures b.mode != UnsafeEscaped ==> b.buf == old(b.buf) && b.validUntil == old(b.validUntil) && memUnchanged()
+  ensures [C13] kept(b.buf)
 
 func (b *Buffer) escapeToEnd(breakNewLines bool)
   requires inv(b)
+  requires breakNewLines <==> b.mode == UnsafeEscaped
+  requires b.mode == SafeRaw ==> b.validUntil == len(b.buf)
+  ensures b.mode == old(b.mode) && b.markerOpen == old(b.markerOpen) && b.validUntil == len(b.buf)
   ensures inv(b)
-  ensures b.mode == old(b.mode) && b.markerOpen == old(b.markerOpen)
+  ensures [C01] clean(b.buf, len(b.buf))
+  ensures [C13] kept(b.buf)
 
 func (b *Buffer) finalize()
   requires inv(b)
   ensures inv(b)
-  ensures b.mode == old(b.mode)
+  ensures b.mode == old(b.mode) && !b.markerOpen && b.validUntil == len(b.buf)
+  ensures [C13] kept(b.buf)
 
 func (b *Buffer) Write(p []byte) (n int, err error)
+  requires b.mode == SafeRaw ==> frag(p, len(p)) && clean(b.buf, len(b.buf)) && ref(p) != ref(b.buf)
+  ghost gl = len(b.buf) before "m, ok := b.tryGrowByReslice(len(p))"
+  ghost ga = b.buf before "m, ok := b.tryGrowByReslice(len(p))"
+  lemma [C01,C03] ConcatWF(ga, b.buf, p, gl, len(p)) when b.mode == SafeRaw at exit
   ensures n == len(p)
   ensures b.mode == old(b.mode)
+  ensures [C13] kept(b.buf)
 
 func (b *Buffer) WriteString(s string) (n int, err error)
+  requires b.mode == SafeRaw ==> frag(s, len(s)) && clean(b.buf, len(b.buf))
+  ghost gl = len(b.buf) before "m, ok := b.tryGrowByReslice(len(s))"
+  ghost ga = b.buf before "m, ok := b.tryGrowByReslice(len(s))"
+  lemma [C01,C03] ConcatWF(ga, b.buf, s, gl, len(s)) when b.mode == SafeRaw at exit
   ensures n == len(s)
   ensures b.mode == old(b.mode)
+  ensures [C13] kept(b.buf)
 
 func (b *Buffer) WriteByte(s byte) (err error)
+  requires b.mode == SafeRaw ==> s < 128
+  ghost gl = len(b.buf) before "m, ok := b.tryGrowByReslice(1)"
+  ghost ga = b.buf before "m, ok := b.tryGrowByReslice(1)"
+  lemma [C01,C03] AppendPlain(ga, b.buf, gl, len(b.buf)) when b.mode == SafeRaw after "b.buf[m] = s"
+  lemma [C01,C03] AppendPlainLS(ga, b.buf, gl, len(b.buf)) when b.mode == SafeRaw after "b.buf[m] = s"
   ensures b.mode == old(b.mode)
+  ensures [C13] kept(b.buf)
 
 func (b *Buffer) WriteRune(s rune) (err error)
+  requires b.mode == SafeRaw ==> 0 <= s && s < 128
+  ghost gl = len(b.buf) before "m, ok := b.tryGrowByReslice(l)"
+  ghost ga = b.buf before "m, ok := b.tryGrowByReslice(l)"
+  assert sameBytes(b.buf, ga, gl) after "_ = utf8.EncodeRune(b.buf[m:], s)"
+  lemma [C01,C03] AppendPlain(ga, b.buf, gl, len(b.buf)) when b.mode == SafeRaw after "_ = utf8.EncodeRune(b.buf[m:], s)"
+  lemma [C01,C03] AppendPlainLS(ga, b.buf, gl, len(b.buf)) when b.mode == SafeRaw after "_ = utf8.EncodeRune(b.buf[m:], s)"
   ensures b.mode == old(b.mode)
+  ensures [C13] kept(b.buf)
 
 func (b *Buffer) SetMode(newMode OutputMode)
+  requires 0 <= newMode && newMode <= 2
   ensures b.mode == newMode
+  ensures old(b.mode) != newMode ==> !b.markerOpen && b.validUntil == len(b.buf)
+  ensures old(b.mode) == newMode ==> b.buf == old(b.buf) && b.validUntil == old(b.validUntil) && b.markerOpen == old(b.markerOpen) && memUnchanged()
+  ensures [C13] kept(b.buf)
 
 func (b *Buffer) GetMode() (m OutputMode)
   modifies nothing
@@ -91,24 +168,40 @@ func (b *Buffer) Reset()
   ensures len(b.buf) == 0 && b.validUntil == 0 && b.mode == UnsafeEscaped && !b.markerOpen
 
 func (b *Buffer) Len() (n int)
-  modifies alloc
+  modifies mem(b.buf)
+  ghost gl = len(b.buf) at entry
+  ghost ga = b.buf at entry
+  assert sameBytes(b.buf, ga, gl) at exit
   ensures n >= 0
+  ensures [C13] kept(b.buf)
 
 func (b *Buffer) Cap() (n int)
   modifies nothing
   ensures n == cap(b.buf)
 
 func (b *Buffer) TakeRedactableBytes() (r m.RedactableBytes)
-  ensures b.buf == nil && b.validUntil == 0 && b.mode == UnsafeEscaped
+  ensures b.buf == nil && b.validUntil == 0 && b.mode == UnsafeEscaped && !b.markerOpen
+  ensures [C01] WF(r, len(r), false)
+  ensures [C01] old(b.mode) != SafeRaw ==> clean(r, len(r))
+  ensures [C03] LS(r, len(r))
 
 func (b *Buffer) TakeRedactableString() (r m.RedactableString)
-  ensures b.buf == nil && b.validUntil == 0 && b.mode == UnsafeEscaped
+  ensures b.buf == nil && b.validUntil == 0 && b.mode == UnsafeEscaped && !b.markerOpen
+  ensures [C01] WF(r, len(r), false)
+  ensures [C01] old(b.mode) != SafeRaw ==> clean(r, len(r))
+  ensures [C03] LS(r, len(r))
 
 func (b Buffer) RedactableBytes() (r m.RedactableBytes)
-  modifies alloc
-  ensures len(r) >= 0
+  modifies mem(b.buf)
+  ensures [C01] WF(r, len(r), false)
+  ensures [C01] b.mode != SafeRaw ==> clean(r, len(r))
+  ensures [C13] kept(b.buf)
+  ensures [C03] LS(r, len(r))
 
 func (b Buffer) RedactableString() (r m.RedactableString)
-  modifies alloc
-  ensures len(r) >= 0
+  modifies mem(b.buf)
+  ensures [C01] WF(r, len(r), false)
+  ensures [C01] b.mode != SafeRaw ==> clean(r, len(r))
+  ensures [C13] kept(b.buf)
+  ensures [C03] LS(r, len(r))
 @*/
